@@ -149,12 +149,12 @@ def problems(env, cfg, tier):
         from jumanji.environments.routing.mmst.utils import update_active_edges
         new = update_active_edges(env.num_agents, edges, pos, types)
         # one obligation per table row (36 entries) -- 3 x 36 rows
-        return {"C01.update_active_edges_in_range": jnp.all((new >= -1) & (new < env.num_nodes), axis=-1),
+        return {"C01.update_active_edges_in_range": jnp.all((new >= -1) & (new < env.num_nodes), axis=-1),  # per row
                 "canary.update_active_edges_is_identity": new[1, 0, 1] == edges[1, 0, 1]}
 
     from jumanji.environments.routing.mmst import utils as MU
     edgesp = dict(title=f"MMST.update_active_edges@{cfg}", args=(state.node_edges, state.positions, state.node_types), requires=req_edges,
-                  ensures=ens_edges, props=("C01",), workers=3, targets=[MU.update_active_edges], note="function-level contract (Inv preservation of the edge tables)")
+                  ensures=ens_edges, props=("C01",), targets=[MU.update_active_edges], note="function-level contract (Inv preservation of the edge tables)")
 
     # reset: the split-graph generator (nested loops) is a contract boundary
     def gen_post(g, key):
